@@ -18,7 +18,7 @@ Trace == ndJsonDeserialize(IOEnv.TRACE_FILE)
 VARIABLES l, idx, challenged, npri, role
 tvars == <<l, idx, challenged, npri, role>>
 
-Frozen == UNCHANGED <<phase, choice, wrap, fals, mut, fault, nlen, runs, hist, ms, mb, nt>>
+Frozen == UNCHANGED <<phase, choice, wrap, fals, mut, fault, nlen, runs, nest, hist, ms, mb, nt>>
 IsEvent(e) == l <= Len(Trace) /\ Trace[l].ev = e /\ l' = l + 1
 Args == Trace[l].args
 
